@@ -224,6 +224,23 @@ def run(ctx):
                 else:
                     o.violated(fn, src_st, f"candidates are sorted by `{kws}`, not by size descending")
 
+    with ctx.obligation("C10.5", "the size limit compared with is the one the caller gave") as o:
+        # `max_size` re-bound from the GRAPH (a clamp to the largest degree, to the clique number ..) is a different limit: a clique of
+        # d + 1 vertices sits on vertices of degree d, so the top cliques are cut off
+        if max_size:
+            rebs = [n for n in astx.walk_fn(fn.node) if isinstance(n, (ast.Assign, ast.AugAssign, ast.AnnAssign)) and getattr(n, "value", None) is not None
+                    and any(isinstance(t_, ast.Name) and t_.id == max_size for t_ in (n.targets if isinstance(n, ast.Assign) else [n.target]))]
+            for rb in rebs:
+                v_ = sc.resolve(rb.value)
+                gnames = {x_ for x_ in (g, fn.node.args.args[0].arg if fn.node.args.args else None) if x_}
+                if astx.names_in(v_) & gnames:
+                    o.violated(fn, rb, f"`{txt(rb)[:70]}` replaces the caller's limit by a quantity read off the graph: cliques the caller allowed (up to degree + 1 vertices, "
+                                       "or all of them for the default 0) are skipped", shape_free=True)
+                else:
+                    o.undecided(f"the limit is re-bound: `{txt(rb)[:60]}`", fn, rb)
+            if not rebs:
+                o.holds(fn, fn.node, f"`{max_size}` is never re-bound")
+
     with ctx.obligation("C10.5", "size limit: skip exactly cliques larger than a positive limit") as o:
         if accept is None:
             o.undecided("acceptance loop not found", fn)
